@@ -58,11 +58,18 @@ def gen_cases(tier, seed):
         {"fam": "composite", "shape": [3], "ctx": 0, "parts": [{"fam": "batchnorm", "shape": [3], "momentum": 0.1, "eps": 1e-5},
                                                                {"fam": "actnorm", "shape": [3]}]},
         {"fam": "inverse", "inner": {"fam": "batchnorm", "shape": [2], "momentum": 0.3, "eps": 1e-3}},
+        # weight caching on: whatever load_state_dict does to the cache must happen after the children are restored
+        {"fam": "qr", "shape": [4], "cache": True, "nh": 3},
+        {"fam": "svd", "shape": [4], "cache": True, "nh": 4, "idinit": False},
+        {"fam": "lu", "shape": [3], "cache": True, "idinit": False},
+        {"fam": "composite", "shape": [4], "ctx": 0, "parts": [{"fam": "qr", "shape": [4], "cache": True, "nh": 2},
+                                                               {"fam": "svd", "shape": [4], "cache": True, "nh": 2, "idinit": True}]},
     ]
     for ni, cfg in enumerate(nested):
         for hi, h in enumerate(HIST):
-            cases.append({"kind": "transform", "cfg": cfg, "hist": h, "seed": env.subseed(seed, "c15n", ni, hi),
-                          "world": "f64" if (ni + hi) % 2 else "f32", "cost": 2})
+            for ef in (False, True):
+                cases.append({"kind": "transform", "cfg": cfg, "hist": h, "seed": env.subseed(seed, "c15n", ni, hi), "eval_first": ef,
+                              "world": "f64" if (ni + hi) % 2 else "f32", "cost": 2})
     for i in range(40 if tier == "quick" else 3000):
         cases.append({"kind": "flow", "cfg": dzoo.sample_flow_cfg(rng), "hist": HIST[i % 4], "seed": env.subseed(seed, "c15f", i),
                       "world": "f64", "cost": 3})
@@ -224,9 +231,12 @@ def run_case(case):
 
     ops = calls(kind, cfg)
     good = True
-    # 1. first call after loading happens in training mode (the default mode of a fresh module)
-    st = compare(ops[0], "train", x, c)
-    good &= st != "bad"
+    # 1. first call after loading happens in training mode (the default mode of a fresh module) - or, for every other
+    #    case, straight in evaluation mode (load + eval() + use: nothing has called train() on the restored model)
+    eval_first = bool(case.get("eval_first", seed % 2 == 0))
+    if not eval_first:
+        st = compare(ops[0], "train", x, c)
+        good &= st != "bad"
     # 2. evaluation mode, every operation
     for op in ops:
         xx = x
@@ -243,6 +253,9 @@ def run_case(case):
         good &= st != "bad"
         if st == "ok" and not pre_agree:
             r.cell(label, hist, op)
+    if eval_first:
+        st = compare(ops[0], "train", x, c)
+        good &= st != "bad"
     # 3. state dicts still agree (statistics updated identically)
     sa, sb = A.state_dict(), B.state_dict()
     for k in sa:
